@@ -1352,3 +1352,384 @@ Proof.
     pose proof (O2 t th o ob Ht Ho Hw) as W. rewrite H in W. destruct W as [W _].
     eapply is_open_not_closed; eauto. apply W. left; reflexivity.
 Qed.
+Ltac lockfacts LI :=
+  repeat match goal with
+  | Ht : nth_error (c_threads ?c) ?t = Some ?th, Ho : nth_error (c_objs ?c) ?o = Some ?ob, Hh : holds_read (th_pc ?th) ?o |- _ =>
+      lazymatch goal with
+      | _ : In t (o_rd ob) |- _ => fail
+      | _ => destruct (reader_no_writer c t th o ob LI Ht Ho Hh)
+      end
+  | Ht : nth_error (c_threads ?c) ?t = Some ?th, Ho : nth_error (c_objs ?c) ?o = Some ?ob, Hh : holds_write (th_pc ?th) ?o |- _ =>
+      lazymatch goal with
+      | _ : o_wr ob = Some t |- _ => fail
+      | _ => destruct (writer_excl c t th o ob LI Ht Ho Hh)
+      end
+  end.
+
+Ltac simp_o :=
+  cbn [th_pc th_prog th_rets o_rd o_wr o_ww o_subs o_defbuf set_rd set_wr set_ww set_subs holds_read holds_write
+       pub_pc after_send pc_pairs wopen In call_ok call_of] in *.
+
+Ltac deliver_cases :=
+  repeat match goal with
+  | H : context [th_pc (deliver ?thr ?v)] |- _ =>
+      let E := fresh "E" in destruct (deliver_pc_cases thr v) as [E|[E|(? & ? & E)]]; rewrite E in *; clear E
+  | H : context [th_pc (deliver_closed ?thr)] |- _ =>
+      let E := fresh "E" in destruct (deliver_closed_pc_cases thr) as [E|E]; rewrite E in *; clear E
+  | H : In _ (th_prog (deliver _ _)) |- _ => apply deliver_prog in H
+  | H : In _ (th_prog (deliver_closed _)) |- _ => apply deliver_closed_prog in H
+  end.
+
+Lemma is_open_upd_false chs ci cj chn b cp :
+  nth_error chs ci = Some chn -> is_open chs cj -> is_open (upd ci (Chan b cp false) chs) cj.
+Proof. intros Hc Ho. eapply is_open_upd; eauto. Qed.
+Lemma is_open_upd_close chs ci cj chn b cp :
+  nth_error chs ci = Some chn -> ci <> cj -> is_open chs cj -> is_open (upd ci (Chan b cp true) chs) cj.
+Proof. intros Hc N Ho. eapply is_open_upd; eauto. Qed.
+
+Lemma wopen_mono chs chs' ob p :
+  (forall ci, is_open chs ci -> is_open chs' ci) -> wopen chs ob p -> wopen chs' ob p.
+Proof. intro M. destruct p; cbn; auto; intuition auto. Qed.
+Lemma wopen_subs chs ob ob' p : o_subs ob' = o_subs ob -> wopen chs ob p -> wopen chs ob' p.
+Proof. intro E. destruct p; cbn; rewrite ?E; auto. Qed.
+
+Ltac mono :=
+  let ci := fresh "ci" in let Hq := fresh "Hq" in
+  intros ci Hq;
+  first [ exact Hq
+        | apply is_open_app; exact Hq
+        | eapply is_open_upd_recv; [eassumption | exact Hq]
+        | eapply is_open_upd_false; [eassumption | exact Hq] ].
+
+Ltac oldfacts OI LI :=
+  repeat match goal with
+  | Hpc : th_pc ?th = _, Ht : nth_error (c_threads ?c) ?t = Some ?th, Ho : nth_error (c_objs ?c) ?o = Some ?ob, Hr : holds_read (th_pc ?th) ?o |- _ =>
+      lazymatch goal with
+      | _ : forall q, _ -> In (p_sub q) (o_subs ob) |- _ => fail
+      | _ => let Hpairs := fresh "Hpairs" in
+             pose proof (fun q => proj1 (proj2 (proj2 OI)) t th o ob q Ht Ho Hr) as Hpairs; rewrite Hpc in Hpairs; cbn [pc_pairs In] in Hpairs
+      end
+  | Hpc : th_pc ?th = _, Ht : nth_error (c_threads ?c) ?t = Some ?th, Ho : nth_error (c_objs ?c) ?o = Some ?ob, Hw : holds_write (th_pc ?th) ?o |- _ =>
+      lazymatch goal with
+      | _ : wopen _ ob _ |- _ => fail
+      | _ => let Hwo := fresh "Hwo" in
+             pose proof (proj1 (proj2 OI) t th o ob Ht Ho Hw) as Hwo; rewrite Hpc in Hwo
+      end
+  | Hpc : th_pc ?th = PWithOnlyU ?o ?cl, Ht : nth_error (c_threads ?c) ?t = Some ?th, Ho : nth_error (c_objs ?c) ?o = Some ?ob |- _ =>
+      lazymatch goal with
+      | _ : forall ci, In ci (o_subs cl) -> In ci (o_subs ob) |- _ => fail
+      | _ => let Hclone := fresh "Hclone" in
+             pose proof (fun ci => proj1 (proj2 (proj2 (proj2 (proj2 OI)))) t th o cl ob ci Ht Hpc Ho) as Hclone
+      end
+  | Hpc : th_pc ?th = PGoSend _ ?p _ _ _, Ht : nth_error (c_threads ?c) ?t = Some ?th |- _ =>
+      lazymatch goal with
+      | _ : is_open (c_chans c) (p_sub p) |- _ => fail
+      | _ => let Hsend := fresh "Hsend" in
+             pose proof (proj1 (proj2 (proj2 (proj2 OI))) t th _ _ _ _ _ Ht Hpc) as Hsend
+      end
+  end.
+
+Ltac fin_o OI LI :=
+  unfold pub_pc, after_send in *;
+  repeat match goal with
+  | H : context [match ?w with Async => _ | Wait => _ | Sync => _ end] |- _ => destruct w
+  | H : context [if ?b then _ else _] |- _ => destruct b
+  end;
+  simp_o; intros; deliver_cases; simp_o; try subst; pcfacts; lockfacts LI; oldfacts OI LI; simp_o;
+  rewrite ?app_length, ?upd_length in *;
+  first [ contradiction | congruence | lia | solve [eauto]
+        | solve [eauto using is_open_app, is_open_upd_recv, is_open_upd_false, starts_prog, in_or_app]
+        | solve [eapply wopen_mono; [| solve [eauto]]; mono]
+        | solve [eapply wopen_mono; [| eapply wopen_subs; [|solve [eauto]]; reflexivity]; mono] ].
+
+Lemma notin_splice {A} (l : list A) i x : NoDup l -> nth_error l i = Some x -> ~ In x (firstn i l ++ skipn (S i) l).
+Proof.
+  revert i; induction l as [|y l IH]; intros i ND H; [destruct i; discriminate|].
+  inversion ND; subst. destruct i as [|i]; cbn in H.
+  - injection H as ->. rewrite firstn_O, skipn_cons, skipn_O. assumption.
+  - rewrite firstn_cons, skipn_cons. cbn [app]. intros [->|F].
+    + apply H2. eapply nth_error_In; eauto.
+    + eapply IH; eauto.
+Qed.
+
+Lemma wopen_close chs ob p ci chn b cp :
+  nth_error chs ci = Some chn -> ~ In ci (o_subs ob) -> wopen chs ob p ->
+  wopen (upd ci (Chan b cp true) chs) ob p.
+Proof.
+  intros Hc Hn. destruct p; cbn; auto.
+  - intros W cj Hj. eapply is_open_upd_close; eauto. intros ->; contradiction.
+  - intros [W L]. split; auto. intros cj Hj. eapply is_open_upd_close; eauto. intros ->; contradiction.
+  - intros W cj Hj. eapply is_open_upd_close; eauto. intros ->; contradiction.
+  - intros (W & ND & I). split; [|split]; auto. intros cj Hj. eapply is_open_upd_close; eauto.
+    intros ->. apply Hn. apply I. assumption.
+Qed.
+
+Ltac l4_contra LI :=
+  exfalso; destruct LI as (_ & _ & _ & L4 & _);
+  match goal with
+  | Hh : holds_write (th_pc ?x) _, Hn : nth_error _ ?i = Some ?x |- _ => pose proof (L4 i x _ Hn (or_intror Hh))
+  | Hh : holds_read (th_pc ?x) _, Hn : nth_error _ ?i = Some ?x |- _ => pose proof (L4 i x _ Hn (or_introl Hh))
+  end; rewrite ?upd_length in *; lia.
+
+Lemma open_inv_step c t th c' :
+  c_panic c = None -> nth_error (c_threads c) t = Some th -> trans c t th c' ->
+  lock_inv c -> wf_inv c -> safe_close c t -> open_inv c -> open_inv c'.
+Proof.
+  intros Hp Ht T LI (W1 & W2 & W3) SC OI.
+  pose proof OI as (O1 & O2 & O3 & O4 & O5 & O6 & O7 & O8 & O9).
+  assert (Lt : t < length (c_threads c)) by (eapply nth_error_some_lt; eauto).
+  destruct T; try match goal with S : send_trans _ _ _ _ _ _ _ _ _ _ |- _ => inv_send S end;
+    try exact OI;
+    try match goal with Hpc : th_pc th = PUnsubClose ?o ?idx, Ho : nth_error (c_objs c) ?o = Some ?ob, Hi : nth_error (o_subs ?ob) ?idx = Some ?ci |- _ =>
+      destruct (SC th o ci Ht) as [Hsc1 Hsc2]; [unfold closing; rewrite Hpc, Ho, Hi; reflexivity|] end;
+    try match goal with Hpc : th_pc th = PUnsubAllLoop ?o (?ci :: _) |- _ =>
+      destruct (SC th o ci Ht) as [Hsc1 Hsc2]; [unfold closing; rewrite Hpc; reflexivity|] end;
+    unfold open_inv; norm; prep; pcfacts.
+  all: split; [|split; [|split; [|split; [|split; [|split; [|split; [|split]]]]]]].
+  all: try (intros xo xob xci Hxo Hxw Hxi; lookup Hxo; fin_o OI LI; fail).
+  all: try (intros xt xth xo xob Hxt Hxo Hxh; lookup Hxt; lookup Hxo; fin_o OI LI; fail).
+  all: try (intros xt xth xo xob xp Hxt Hxo Hxh Hxi; lookup Hxt; lookup Hxo; fin_o OI LI; fail).
+  all: try (intros xt xth xk xp xtm xcb xwg Hxt Hxh; lookup Hxt; fin_o OI LI; fail).
+  all: try (intros xt xth xo xcl xob xci Hxt Hxh Hxo Hxi; lookup Hxt; lookup Hxo; fin_o OI LI; fail).
+  all: try (intros xo xob Hxo; lookup Hxo; fin_o OI LI; fail).
+  all: try (intros xt xth xcl Hxt Hxi; lookup Hxt; fin_o OI LI; fail).
+  all: try (intros xt xth xl Hxt Hxh; lookup Hxt; fin_o OI LI; fail).
+  all: try (intros xt xth xo xcl Hxt Hxh; lookup Hxt; fin_o OI LI; fail).
+  - (* PubStart, O3 *)
+    intros xt xth xo xob xp Hxt Hxo Hxh Hxi; lookup Hxt; lookup Hxo; try (fin_o OI LI; fail).
+    all: unfold pub_pc, pub_ps in *; destruct w, sl; simp_o; eauto using pairs_slice_sub, pairs_one_sub; congruence.
+  - (* WithOnlyStart, O5 *)
+    intros xt xth xo xcl xob xci Hxt Hxh Hxo Hxi; lookup Hxt; lookup Hxo; try (fin_o OI LI; fail).
+    all: simp_o; inversion Hxh; subst; simp_o; apply withonly_loop_in in Hxi as [_ Hxi]; try assumption; try congruence.
+  - (* WithOnlyStart, O9 *)
+    intros xt xth xo xcl Hxt Hxh; lookup Hxt; try (fin_o OI LI; fail).
+    all: simp_o; inversion Hxh; subst; cbn; lia.
+  - (* SubStart, O2 *)
+    intros xt xth xo xob Hxt Hxo Hxh; lookup Hxt; lookup Hxo; try (fin_o OI LI; fail).
+    all: simp_o; intros ci Hci; apply in_app_or in Hci as [Hci|[<-|[]]]; [apply is_open_app; eapply O1; eauto | apply is_open_new].
+  - (* Announce, O7 *)
+    intros xt xth xcl Hxt Hxi; lookup Hxt; try (fin_o OI LI; fail).
+    all: simp_o; apply (O7 t th); auto; rewrite H0; right; auto.
+  - (* Announce, O8 *)
+    intros xt xth xl Hxt Hxh; lookup Hxt; try (fin_o OI LI; fail).
+    all: simp_o; inversion Hxh; subst; apply (O7 t th); auto; rewrite H0; left; reflexivity.
+  - (* UnsubStart, O2 *)
+    intros xt xth xo xob Hxt Hxo Hxh; lookup Hxt; lookup Hxo; try (fin_o OI LI; fail).
+    all: simp_o; destruct (sub_index_spec (o_subs ob) sub) as [[_ E]|(n & E & Hn & _)]; rewrite E in *.
+    all: try (cbn [Z.eqb Pos.eqb] in *; simp_o; eauto; fail).
+    all: replace (Z.of_nat n =? -1)%Z with false in * by (symmetry; apply Z.eqb_neq; lia); simp_o.
+    all: try contradiction; try congruence.
+    all: split; [eauto|rewrite Nat2Z.id; eapply nth_error_some_lt; eauto].
+  - (* UnsubAllStart, O2 *)
+    intros xt xth xo xob Hxt Hxo Hxh; lookup Hxt; lookup Hxo; try (fin_o OI LI; fail).
+    all: simp_o; split; [eauto|split; [eauto|apply incl_refl]].
+  - (* Spawn, O4 *)
+    intros xt xth xk xp xtm xcb xwg Hxt Hxh; lookup Hxt; try (fin_o OI LI; fail).
+    all: simp_o; inversion Hxh; subst; lockfacts LI; oldfacts OI LI; eapply O1; eauto.
+  - (* WithOnlyU, O2 *)
+    intros xt xth xo xob Hxt Hxo Hxh; lookup Hxt; lookup Hxo; try (fin_o OI LI; fail).
+    all: l4_contra LI.
+  - (* WithOnlyU, O3 *)
+    intros xt xth xo xob xp Hxt Hxo Hxh Hxi; lookup Hxt; lookup Hxo; try (fin_o OI LI; fail).
+    all: l4_contra LI.
+  - (* WithOnlyU, O5 *)
+    intros xt xth xo xcl xob xci Hxt Hxh Hxo Hxi; lookup Hxt; lookup Hxo; try (fin_o OI LI; fail).
+    all: pcfacts; l4_contra LI.
+  - (* UnsubCloseOk, O1 *)
+    intros xo xob xci Hxo Hxw Hxi; lookup Hxo; try (fin_o OI LI; fail).
+    all: eapply is_open_upd_close; eauto; intros ->; eapply Hsc2; eauto.
+  - (* UnsubCloseOk, O2 *)
+    intros xt xth xo xob Hxt Hxo Hxh; lookup Hxt; lookup Hxo; try (fin_o OI LI; fail).
+    + oldfacts OI LI; simp_o. destruct Hwo as [Hwo _]. intros cj Hj. pose proof (in_splice _ _ _ Hj) as Hj'.
+      eapply is_open_upd_close; eauto. intros ->. eapply notin_splice; eauto.
+    + eapply wopen_close; eauto.
+  - (* UnsubCloseOk, O4 *)
+    intros xt xth xk xp xtm xcb xwg Hxt Hxh; lookup Hxt; try (fin_o OI LI; fail).
+    all: eapply is_open_upd_close; [eassumption | intro E; symmetry in E; revert E; eapply Hsc1; eauto | eapply O4; eauto].
+  - (* UnsubAllClose, O1 *)
+    intros xo xob xci Hxo Hxw Hxi. destruct (Nat.eq_dec xo o) as [->|N].
+    { lockfacts LI. congruence. }
+    eapply is_open_upd_close; eauto. intros ->. eapply Hsc2; eauto.
+  - (* UnsubAllClose, O2 *)
+    intros xt xth xo xob Hxt Hxo Hxh; lookup Hxt; try (fin_o OI LI; fail).
+    + simp_o; subst. oldfacts OI LI; simp_o. destruct Hwo as (Wo & ND & I). inversion ND; subst.
+      split; [|split]; auto.
+      * intros cj Hj. eapply is_open_upd_close; eauto. intros ->; contradiction.
+      * intros x Hx; apply I; right; auto.
+    + destruct (Nat.eq_dec xo o) as [->|N']; [lockfacts LI; congruence | eapply wopen_close; eauto].
+  - (* UnsubAllClose, O4 *)
+    intros xt xth xk xp xtm xcb xwg Hxt Hxh; lookup Hxt; try (fin_o OI LI; fail).
+    all: eapply is_open_upd_close; [eassumption | intro E; symmetry in E; revert E; eapply Hsc1; eauto | eapply O4; eauto].
+Qed.
+
+Lemma open_inv_init timeout cb defbuf progs :
+  (0 <= defbuf)%Z -> (forall p cl, In p progs -> In cl p -> call_ok cl) ->
+  open_inv (init timeout cb defbuf progs).
+Proof.
+  intros Hd Hc. unfold open_inv. repeat split.
+  - intros o ob ci H _ Hi. cbn in H. destruct o as [|[|o]]; try discriminate. injection H as <-. destruct Hi.
+  - intros t th o ob Ht _ Hh. apply init_threads_pc in Ht as [E _]. rewrite E in Hh. destruct Hh.
+  - intros t th o ob p Ht _ Hh. apply init_threads_pc in Ht as [E _]. rewrite E in Hh. destruct Hh.
+  - intros t th k p tm cb0 wg Ht E'. apply init_threads_pc in Ht as [E _]. congruence.
+  - intros t th o cl ob ci Ht E'. apply init_threads_pc in Ht as [E _]. congruence.
+  - intros o ob H. cbn in H. destruct o as [|[|o]]; try discriminate. injection H as <-. exact Hd.
+  - intros t th cl Ht Hi. cbn in Ht. apply nth_error_In in Ht. apply in_map_iff in Ht as (p & <- & Hp). eapply Hc; eauto.
+  - intros t th l Ht E'. apply init_threads_pc in Ht as [E _]. congruence.
+  - intros t th o cl Ht E'. apply init_threads_pc in Ht as [E _]. congruence.
+Qed.
+
+(* every close step of the schedule happens in a safe configuration *)
+Definition safe_sched (c0 : config) (s : sched) : Prop :=
+  forall s1 tc s2, s = s1 ++ tc :: s2 -> safe_close (run c0 s1) (fst tc).
+
+Lemma no_panic_safe timeout cb defbuf progs s :
+  (0 <= defbuf)%Z -> (forall p cl, In p progs -> In cl p -> call_ok cl) ->
+  safe_sched (init timeout cb defbuf progs) s ->
+  c_panic (run (init timeout cb defbuf progs) s) = None /\ open_inv (run (init timeout cb defbuf progs) s).
+Proof.
+  intros Hd Hc. induction s as [|[t ch] s IH] using rev_ind; intro Hs.
+  - split; [reflexivity|apply open_inv_init; auto].
+  - destruct IH as [Hp OI].
+    { intros s1 tc s2 E. apply (Hs s1 tc (s2 ++ [(t, ch)])). rewrite E, <- app_assoc. reflexivity. }
+    rewrite run_app. cbn [run]. unfold step_or_stay. cbn [fst snd].
+    destruct (step (run (init timeout cb defbuf progs) s) t ch) as [c'|] eqn:E; [|auto].
+    apply step_trans in E as (_ & th & Ht & T).
+    pose proof (lock_inv_run timeout cb defbuf progs s) as LI.
+    pose proof (wf_inv_run timeout cb defbuf progs s) as WF.
+    pose proof (wg_inv_run timeout cb defbuf progs s) as WG.
+    split.
+    + eapply no_panic_step; eauto.
+    + eapply open_inv_step; eauto. apply (Hs s (t, ch) []). reflexivity.
+Qed.
+(* ------------------------------------------------------------------ *)
+(* Programs whose publishes are all Sync variants (no WithOnly)         *)
+(* ------------------------------------------------------------------ *)
+Definition sync_only_call (cl : call) : Prop :=
+  match cl with
+  | CPubOne w _ _ | CPubSlice w _ _ => w = Sync
+  | CWithOnly _ _ => False
+  | _ => True
+  end.
+Definition sync_pc (p : pc) : Prop :=
+  match p with
+  | PLoop k _ _ | PSyncCb k _ _ _ => snd (k_var k) = Sync
+  | PAdd _ _ _ _ | PWait _ | PGoSend _ _ _ _ _ | PGoCb _ _ _ | PGoDone _ _ | PWithOnlyU _ _ => False
+  | _ => True
+  end.
+Definition sync_inv (c : config) : Prop :=
+  (forall t th cl, nth_error (c_threads c) t = Some th -> In cl (th_prog th) -> sync_only_call cl) /\
+  (forall t th, nth_error (c_threads c) t = Some th -> sync_pc (th_pc th)) /\
+  length (c_objs c) = 1.
+
+Lemma starts_sync c t th cl rest :
+  sync_inv c -> nth_error (c_threads c) t = Some th -> starts th cl rest -> sync_only_call cl.
+Proof.
+  intros (S1 & _ & _) Ht [[_ E]|(l & _ & -> & _)].
+  - apply (S1 t th); auto. rewrite E. left; reflexivity.
+  - destruct l; exact I.
+Qed.
+
+Lemma deliver_sync_pc thr v ci : recv_target thr = Some ci -> sync_pc (th_pc (deliver thr v)).
+Proof.
+  intro H. destruct (recv_target_pc _ _ H) as [E|[acc E]]; unfold deliver; rewrite E; cbn; auto.
+  destruct (th_prog thr) as [|[] ?]; cbn; auto; rewrite E; cbn; auto.
+Qed.
+Lemma deliver_closed_sync_pc thr ci : recv_target thr = Some ci -> sync_pc (th_pc (deliver_closed thr)).
+Proof.
+  intro H. destruct (recv_target_pc _ _ H) as [E|[acc E]]; unfold deliver_closed; rewrite E; cbn; auto.
+  destruct (th_prog thr) as [|[] ?]; cbn; auto; rewrite E; cbn; auto.
+Qed.
+
+Ltac fin_s :=
+  cbn [th_pc th_prog th_rets sync_pc sync_only_call after_send In] in *; intros;
+  repeat match goal with
+  | H : In _ (th_prog (deliver _ _)) |- _ => apply deliver_prog in H
+  | H : In _ (th_prog (deliver_closed _)) |- _ => apply deliver_closed_prog in H
+  end;
+  rewrite ?app_length, ?upd_length in *;
+  first [ contradiction | congruence | lia | solve [eauto] | solve [eauto using starts_prog]
+        | solve [eapply deliver_sync_pc; eauto] | solve [eapply deliver_closed_sync_pc; eauto] ].
+
+Lemma sync_inv_step c t th c' :
+  c_panic c = None -> nth_error (c_threads c) t = Some th -> trans c t th c' -> sync_inv c -> sync_inv c'.
+Proof.
+  intros Hp Ht T SI. pose proof SI as (S1 & S2 & S3).
+  assert (Lt : t < length (c_threads c)) by (eapply nth_error_some_lt; eauto).
+  pose proof (S2 t th Ht) as Hpc.
+  destruct T; try match goal with S : send_trans _ _ _ _ _ _ _ _ _ _ |- _ => inv_send S end;
+    try exact SI;
+    try match goal with Hs : starts th _ _ |- _ => pose proof (starts_sync c t th _ _ SI Ht Hs) as Hsy end;
+    try match goal with E : th_pc th = _ |- _ => rewrite E in Hpc; cbn [sync_pc] in Hpc end;
+    try contradiction;
+    unfold sync_inv; norm.
+  all: split; [|split].
+  all: try (intros xt xth xcl Hxt Hxi; lookup Hxt; fin_s; fail).
+  all: try (intros xt xth Hxt; lookup Hxt; fin_s; fail).
+  all: try (rewrite ?app_length, ?upd_length; cbn; lia).
+  - intros xt xth Hxt; lookup Hxt; [|eauto]. cbn [th_pc]. unfold pub_pc.
+    destruct H0 as [(-> & _)|(-> & _)]; cbn in Hsy; subst w; cbn; reflexivity.
+  - intros xt xth xcl Hxt Hxi; lookup Hxt; [|eauto]. cbn [th_prog] in Hxi.
+    apply (S1 t th); auto. rewrite H0. right; auto.
+  - intros xt xth Hxt; lookup Hxt; [|eauto]. cbn [th_pc]. destruct (_ =? _)%Z; exact I.
+Qed.
+
+Lemma sync_inv_init timeout cb defbuf progs :
+  (forall p cl, In p progs -> In cl p -> sync_only_call cl) -> sync_inv (init timeout cb defbuf progs).
+Proof.
+  intro Hc. unfold sync_inv. repeat split.
+  - intros t th cl Ht Hi. cbn in Ht. apply nth_error_In in Ht. apply in_map_iff in Ht as (p & <- & Hp). eapply Hc; eauto.
+  - intros t th Ht. apply init_threads_pc in Ht as [E _]. rewrite E. exact I.
+Qed.
+
+Lemma sync_inv_run timeout cb defbuf progs s :
+  (forall p cl, In p progs -> In cl p -> sync_only_call cl) -> sync_inv (run (init timeout cb defbuf progs) s).
+Proof. intro Hc. apply run_lift; [exact sync_inv_step|apply sync_inv_init; auto]. Qed.
+
+(* with Sync publishes only there is never an asynchronous sender and only the root PubSub: every close is safe *)
+Lemma sync_safe_close c t : lock_inv c -> sync_inv c -> safe_close c t.
+Proof.
+  intros LI (_ & S2 & S3) th o ci Ht Hcl. split.
+  - intros t' th' k p tm cb wg Ht' E. pose proof (S2 t' th' Ht') as F. rewrite E in F. destruct F.
+  - intros o' ob' N Ho'. exfalso.
+    assert (Hw : holds_write (th_pc th) o).
+    { unfold closing in Hcl. destruct (th_pc th); try discriminate; cbn.
+      - destruct (nth_error (c_objs c) o0); [|discriminate]. destruct (nth_error _ idx); [|discriminate]. congruence.
+      - destruct rest; [discriminate|]. congruence. }
+    destruct LI as (_ & _ & _ & L4 & _). pose proof (L4 t th o Ht (or_intror Hw)).
+    apply nth_error_some_lt in Ho'. lia.
+Qed.
+
+Lemma no_panic_sync timeout cb defbuf progs s :
+  (0 <= defbuf)%Z -> (forall p cl, In p progs -> In cl p -> call_ok cl /\ sync_only_call cl) ->
+  c_panic (run (init timeout cb defbuf progs) s) = None.
+Proof.
+  intros Hd Hc. apply no_panic_safe; auto.
+  - intros p cl Hp Hi. apply (Hc p cl Hp Hi).
+  - intros s1 tc s2 E. apply sync_safe_close; [apply lock_inv_run|apply sync_inv_run].
+    intros p cl Hp Hi. apply (Hc p cl Hp Hi).
+Qed.
+
+(* what UnsubAll's closing loop leaves in the channel heap: exactly the listed
+   channels are closed (buffers and capacities kept), the others are untouched *)
+Lemma close_all_notin l : forall chs ci, ~ In ci l -> nth_error (close_all l chs) ci = nth_error chs ci.
+Proof.
+  induction l as [|x l IH]; intros chs ci Hn; [reflexivity|].
+  unfold close_all. cbn [fold_left]. fold (close_all l (close_one chs x)).
+  rewrite IH by (intro F; apply Hn; right; exact F).
+  unfold close_one. destruct (nth_error chs x); [|reflexivity].
+  apply nth_error_upd_neq. intros ->. apply Hn. left; reflexivity.
+Qed.
+Lemma close_all_in l : forall chs ci chn, In ci l -> nth_error chs ci = Some chn ->
+  nth_error (close_all l chs) ci = Some (Chan (ch_buf chn) (ch_cap chn) true).
+Proof.
+  induction l as [|x l IH]; intros chs ci chn Hi Hc; [destruct Hi|].
+  unfold close_all. cbn [fold_left]. fold (close_all l (close_one chs x)).
+  destruct (Nat.eq_dec x ci) as [->|N].
+  - assert (Hx : nth_error (close_one chs ci) ci = Some (Chan (ch_buf chn) (ch_cap chn) true)).
+    { unfold close_one. rewrite Hc. apply nth_error_upd_eq. eapply nth_error_some_lt; eauto. }
+    destruct (in_dec Nat.eq_dec ci l) as [I|I].
+    + rewrite (IH _ _ _ I Hx). reflexivity.
+    + rewrite close_all_notin by exact I. exact Hx.
+  - destruct Hi as [Hi|Hi]; [congruence|]. apply IH; auto.
+    unfold close_one. destruct (nth_error chs x); [|exact Hc]. rewrite nth_error_upd_neq by exact N. exact Hc.
+Qed.
